@@ -186,6 +186,18 @@ def is_patched(cls) -> bool:
     return False
 
 
+def calls_onnx(cls) -> bool:
+    """the operator's own `infer_output_types` runs the standard ONNX routine first (source inspection)"""
+    import inspect as _i
+    import textwrap
+
+    try:
+        src = textwrap.dedent(_i.getsource(cls.infer_output_types))
+    except (OSError, TypeError):
+        return False
+    return "infer_output_types_onnx()" in src or "super().infer_output_types()" in src
+
+
 # ---------------------------------------------------------------------------------- generator
 STRING_CHOICES = {
     "auto_pad": ["NOTSET", "SAME_UPPER", "SAME_LOWER", "VALID"],
